@@ -62,11 +62,14 @@ struct JSON {
             if (length != 0) {
                 SizeT offset = 0;
                 StringUtils::TrimLeft(content, offset, length);
-                ValueT value = parseValue(stream, content, offset, length);
-                StringUtils::TrimLeft(content, offset, length);
 
-                if (offset == length) {
-                    return value;
+                if (offset < length) {
+                    ValueT value = parseValue(stream, content, offset, length);
+                    StringUtils::TrimLeft(content, offset, length);
+
+                    if (offset == length) {
+                        return value;
+                    }
                 }
             }
 
@@ -83,13 +86,13 @@ struct JSON {
 
             ValueT value{ValueType::Object};
 
-            if (content[offset] != JSONotation::ECurlyChar) {
+            if ((offset >= length) || (content[offset] != JSONotation::ECurlyChar)) {
                 ObjectT *obj = value.GetObject();
 
                 while (offset < length && (content[offset] == JSONotation::QuoteChar)) {
                     ++offset;
                     const Char_T *str = (content + offset);
-                    SizeT         len = JSONUtils::UnEscape(str, length, stream);
+                    SizeT         len = JSONUtils::UnEscape(str, (length - offset), stream);
 
                     if (len != 0) {
                         offset += len;
@@ -103,9 +106,14 @@ struct JSON {
 
                         StringUtils::TrimLeft(content, offset, length);
 
-                        if (content[offset] == JSONotation::ColonChar) {
+                        if ((offset < length) && (content[offset] == JSONotation::ColonChar)) {
                             ++offset;
                             StringUtils::TrimLeft(content, offset, length);
+
+                            if (offset >= length) {
+                                break;
+                            }
+
                             String<Char_T> key{str, len};
                             obj->Insert(Memory::Move(key), parseValue(stream, content, offset, length));
                             StringUtils::TrimLeft(content, offset, length);
@@ -142,7 +150,7 @@ struct JSON {
 
             ValueT value{ValueType::Array};
 
-            if (content[offset] != JSONotation::ESquareChar) {
+            if ((offset >= length) || (content[offset] != JSONotation::ESquareChar)) {
                 Array<ValueT> *arr = value.GetArray();
 
                 while (offset < length) {
@@ -213,7 +221,7 @@ struct JSON {
 
                     ++offset;
 
-                    while ((offset < length) && (content[offset] == *true_string)) {
+                    while ((offset < length) && (*true_string != Char_T{0}) && (content[offset] == *true_string)) {
                         ++true_string;
                         ++offset;
                     }
@@ -230,7 +238,7 @@ struct JSON {
 
                     ++offset;
 
-                    while ((offset < length) && (content[offset] == *false_string)) {
+                    while ((offset < length) && (*false_string != Char_T{0}) && (content[offset] == *false_string)) {
                         ++false_string;
                         ++offset;
                     }
@@ -247,7 +255,7 @@ struct JSON {
 
                     ++offset;
 
-                    while ((offset < length) && (content[offset] == *null_string)) {
+                    while ((offset < length) && (*null_string != Char_T{0}) && (content[offset] == *null_string)) {
                         ++null_string;
                         ++offset;
                     }
